@@ -21,7 +21,7 @@ CLAIMED = {
     "C02": dict(
         text="Phonetic method entry points executed from MIR with the candidate assembly replaced by its contract (non-empty list, preselection "
              "inside it): z3 decides list non-empty, preselection < length for a caller byte valid for the previous list, auxiliary text = typed "
-             "text; the assembly obligations decide the contract itself; Kani decides the accessor/read-out laws.",
+             "text; the assembly obligations decide the contract itself; Kani decides the accessor/read-out laws. The list shown after an option change on a warm object is decided non-empty with its preselection inside it.",
         technique="symbolic execution of rustc MIR with z3 + Kani/CBMC kernels"),
     "C03": dict(
         text="Kani: key->character table equals the key-name table. MIR executor: splitter equals the punctuation/word/punctuation reference for "
@@ -31,7 +31,7 @@ CLAIMED = {
     "C04": dict(
         text="Fixed method key entry point from MIR with key code (2^16), modifier byte (2^8) and number-pad option symbolic and the layout file an "
              "oracle: z3 decides on every path that exactly the entry named by the key-name table is consulted and exactly its text composed; "
-             "Kani cross-checks modifier decoding. Every path witness is replayed natively. The same is decided on the layout object the crate's own Layout::parse builds from MIR (one shape per layout key, its two planes absent / empty / any text).",
+             "Kani cross-checks modifier decoding. Every path witness is replayed natively. The same is decided on the layout object the crate's own Layout::parse builds from MIR (one shape per layout key, its two planes absent / empty / any text). A layout change of a live context (new_with_config, key, finish, update_engine to another layout file, key) is executed from MIR with the real constructors and two layout files as oracles.",
         technique="symbolic execution of rustc MIR with z3 over the full key space + Kani/CBMC kernel"),
     "C05": dict(
         text="Memo transparency step: suggest() executed twice from MIR on the same object with shared data oracles (first with the memo holding the "
@@ -45,11 +45,11 @@ CLAIMED = {
     "C07": dict(
         text="Kani runs the real slice::sort over symbolic Rank values of the producible domain and decides the ordering clauses and stability; the MIR "
              "executor runs the whole phonetic assembly with auto-correct, dictionary, emoji and selection oracles and symbolic distances and z3 decides "
-             "the ranking clauses, English-last and no-duplicates on every path; executor and native build agree on concrete typed texts. Every dictionary-derived candidate carries the distance of its dictionary word / of its base.",
+             "the ranking clauses, English-last and no-duplicates on every path; executor and native build agree on concrete typed texts. Every dictionary-derived candidate carries the distance of its dictionary word / of its base. Two re-loads of the user's auto-correct file in a row under a free environment: a file newer than the last successful load is read.",
         technique="Kani/CBMC SAT (real std sort) + symbolic execution of rustc MIR with z3 (data oracles)"),
     "C08": dict(
         text="Suffix half: add_suffix_to_suggestions/suggest from MIR for a symbolic word with every split point, suffix and memo oracles: z3 decides that "
-             "every base candidate of every known base|suffix split appears joined by the reference rules (completeness) on every path.",
+             "every base candidate of every known base|suffix split appears joined by the reference rules (completeness) on every path. The base alone is run first and every auto-correct / dictionary candidate it was offered must come back joined; every dictionary-class candidate of the whole word must be justified by the table's answer for the tail exactly as typed.",
         technique="symbolic execution of rustc MIR with z3 against reference joining rules"),
     "C09": dict(
         text="Learn round trip from MIR: suggest -> candidate_committed(any index other than the preselected one) -> suggest again, with data oracles and "
@@ -57,7 +57,7 @@ CLAIMED = {
         technique="symbolic execution of rustc MIR with z3 (multi-step, data oracles)"),
     "C10": dict(
         text="PhoneticMethod::new, update_engine and candidate_committed from MIR with every file-system and serde_json call a nondeterministic oracle "
-             "that may fail: z3/path enumeration decides no panic path and the state clauses (unreadable = absent, failed save loses one choice). The candidate assembly is run with empty stored strings as a damaged file can hold them (loaded at start-up or by a re-load).",
+             "that may fail: z3/path enumeration decides no panic path and the state clauses (unreadable = absent, failed save loses one choice). The candidate assembly is run with empty stored strings as a damaged file can hold them (loaded at start-up or by a re-load). Two re-loads in a row; the map the method holds after a commit keeps every earlier choice.",
         technique="symbolic execution of rustc MIR with fault oracles (bounded model checking of all environment behaviours)"),
     "C11": dict(
         text="Reload step from MIR: type a word, update_engine under a later modification time with a different user auto-correct list (entry present/"
@@ -82,7 +82,7 @@ CLAIMED = {
         technique="symbolic execution of rustc MIR with z3 (data oracles) + Kani/CBMC (real sort_unstable)"),
     "C16": dict(
         text="Kani decides the English-masked-by-ANSI switch and the read-out law pre-edit = encode(candidate) iff ANSI (encoder = tagging stub); the MIR "
-             "executor decides for both assemblies that with ANSI on no emoji, emoticon text or raw English reaches the list for any English setting. The ANSI clause is also decided for the list shown after an option change on a warm object.",
+             "executor decides for both assemblies that with ANSI on no emoji, emoticon text or raw English reaches the list for any English setting. The ANSI clause is also decided for the list shown after an option change on a warm object. Under ANSI no candidate IS the typed text or an emoji of the tables, whatever rank class it carries (auto-correct oracles included).",
         technique="Kani/CBMC SAT + symbolic execution of rustc MIR with z3"),
     "C17": dict(
         text="Quoter kernel for all strings within the bound, and paired assembly runs (smart quotes on vs off, same oracles) for both methods: z3 decides "
